@@ -71,20 +71,42 @@ def code_constants(X):
         raise ValueError(f"_difference_units: startswith {sw}, returns {ret}")
     out["diff_startswith"] = sw[0]
     out["diff_point_to_delta"] = ret
-    # --- diff_helper: the unit a temperature difference is labelled with
+    # --- diff_helper: the unit a temperature difference is labelled with:
+    #     `ret_units = <delta unit>`                       (every offset-free unit gets that label), or
+    #     `ret_units = <delta unit> if u == <delta unit> else u`   (only units equal to it; others keep their own)
     t = _fn_ast(uaf.diff_helper)
     names = []
+    keeps = []
     for n in ast.walk(t):
         if isinstance(n, ast.If):
             for b in n.body:
-                if isinstance(b, ast.Assign) and isinstance(b.value, ast.Name) and getattr(b.targets[0], "id", None) == "ret_units":
-                    obj = getattr(uaf, b.value.id, None)
-                    if obj is not None and not isinstance(obj, type):
-                        names.append(repr(getattr(obj, "units", obj)))
-    names = [n for n in names if n != "u"]
+                if isinstance(b, ast.Assign) and getattr(b.targets[0], "id", None) == "ret_units":
+                    v = b.value
+                    keep = False
+                    if (isinstance(v, ast.IfExp) and isinstance(v.body, ast.Name) and isinstance(v.orelse, ast.Name)
+                            and v.orelse.id == "u" and isinstance(v.test, ast.Compare) and len(v.test.ops) == 1
+                            and isinstance(v.test.ops[0], ast.Eq) and getattr(v.test.left, "id", None) == "u"
+                            and getattr(v.test.comparators[0], "id", None) == v.body.id):
+                        v = v.body
+                        keep = True
+                    if isinstance(v, ast.Name):
+                        obj = getattr(uaf, v.id, None)
+                        if obj is not None and not isinstance(obj, type):
+                            names.append(repr(getattr(obj, "units", obj)))
+                            keeps.append(keep)
     if len(names) != 1:
         raise ValueError(f"diff_helper: expected one temperature return unit, found {names}")
     out["diff_helper_unit"] = names[0]
+    out["diff_helper_keeps_unit"] = keeps[0]
+    # --- Unit.__pow__ looks at the offset; the conversion block of __array_ufunc__ can rescale the first operand
+    from unyt.unit_object import Unit as _Unit
+
+    t = _fn_ast(_Unit.__pow__)
+    out["pow_checks_offset"] = any(isinstance(n, ast.Attribute) and n.attr == "base_offset" for n in ast.walk(t))
+    t = _fn_ast(ua.unyt_array.__array_ufunc__)
+    out["add_rescales_first"] = any(
+        isinstance(n, ast.Assign) and getattr(n.targets[0], "id", None) == "inp0" and isinstance(n.value, ast.BinOp)
+        and isinstance(n.value.op, ast.Mult) for n in ast.walk(t))
     return out
 
 
@@ -144,6 +166,12 @@ def generate(X):
         + ", ".join(f"({cps(a)}, {cps(b)})" for a, b in cc["diff_point_to_delta"]) + "]\n\n"
         + "/-- _array_functions.py `diff_helper`: the unit a temperature `diff/ediff1d/ptp` is labelled with -/\n"
         + f"def diffHelperUnit : List Nat := {cps(cc['diff_helper_unit'])}\n\n"
+        + "/-- `diff_helper` gives that label only to units equal to it (`... if u == ... else u`) -/\n"
+        + f"def diffHelperKeepsUnit : Bool := {'true' if cc['diff_helper_keeps_unit'] else 'false'}\n\n"
+        + "/-- `Unit.__pow__` inspects `base_offset` (refusal of offset units) -/\n"
+        + f"def powChecksOffset : Bool := {'true' if cc['pow_checks_offset'] else 'false'}\n\n"
+        + "/-- the conversion block of `__array_ufunc__` has a branch that rescales the first operand -/\n"
+        + f"def addRescalesFirst : Bool := {'true' if cc['add_rescales_first'] else 'false'}\n\n"
         + "end Unyt.Generated\n"
     )
     X.write_if_changed(os.path.join(X.GEN, "TempRows.lean"), text)
